@@ -170,6 +170,11 @@ fn gen_call(t: &mut Tape) -> Call {
                 return Call { helper: "lists.slice", expr: "lists.slice{list = []}".into(), want: GVal::List(vec![]), nontrivial: true };
             }
             let start = t.choice(l.len());
+            if start >= 2 && t.chance(1, 5) {
+                // both indices in the list, the end before the start: no index lies between them
+                let end = t.choice(start - 1);
+                return Call { helper: "lists.slice", expr: format!("lists.slice{{start = {}, end = {}, list = {}}}", start, end, lit(&GVal::List(l.clone()))), want: GVal::List(vec![]), nontrivial: true };
+            }
             let end = start + t.choice(l.len() - start);
             let with_end = t.chance(3, 4);
             let (expr, want) = if with_end {
@@ -256,7 +261,7 @@ fn gen_call(t: &mut Tape) -> Call {
         20 => {
             // parse_int: leading digits
             let digits = t.range(1, 999999);
-            let rest = (*t.pick(&["", "abc", " 12", "px", "-3", ".5"])).to_string();
+            let rest = (*t.pick(&["", "abc", " 12", "px", "-3", ".5", "٣abc", "７", "੩", "é9"])).to_string();
             let s = format!("{}{}", digits, rest);
             Call { helper: "strings.parse_int", expr: format!("strings.ops{{str = {}}}.parse_int().unwrap()", lit(&GVal::Str(s))), want: GVal::Int(digits), nontrivial: !rest.is_empty() }
         }
